@@ -8,12 +8,16 @@
    Part 2 (Model/StopHandles.v): histories of stop_source / stop_token copy, move, assignment,
    swap, destruction over a heap of reference-counted states.
 
-   NOT proved here (checked only by the lock-step correspondence and the monitors, see
-   notes/design/C14.md): callback_exactly_once, no_callback_after_dtor,
-   dtor_waits_other_not_self as theorems about the model. *)
+   Part 1b (same model, Proofs/StopCallbacksAbs.v + StopCallbacksProofs.v): the stop_callback
+   clauses — each callback at most once / exactly once, never after its destructor returned,
+   the destructor waits for another thread but not for its own — under [ids_faithful]: distinct
+   threads are told apart by the identity test of remove_callback (live pika threads have
+   distinct pika ids, threads without a pika id distinct OS ids); C14_ids_faithful_needed shows
+   the hypothesis cannot be dropped. *)
 From Coq Require Import List NArith Bool.
 From Pika Require Import Base.Conc Gen.GenStopBits Model.StopWord Model.StopState
-  Model.StopHandles Proofs.StopFlagsProofs Proofs.StopStateProofs Proofs.StopHandlesProofs.
+  Model.StopHandles Proofs.StopFlagsProofs Proofs.StopStateProofs Proofs.StopHandlesProofs
+  Proofs.StopCallbacksAbs Proofs.StopCallbacksProofs.
 Import ListNotations.
 
 (* the regenerated layout: four disjoint fields filling the 64-bit word *)
@@ -75,6 +79,118 @@ Example C14_state_example :
   cb_dtor (cb (fst c) 0%nat) = 2%nat /\ thread_done (snd c 0%nat) = true /\ thread_done (snd c 1%nat) = true /\
   bad_run_after_dtor (fst c) = false /\ bad_dtor_during_run (fst c) = false.
 Proof. Transparent W. vm_compute. repeat split; reflexivity. Qed.
+
+(* ------------------------------------------------------------------------------------------
+   Part 1b: stop_callback.  ghost fields used: cb_runs (how often execute() was entered),
+   cb_ctor / cb_dtor (0 not started, 1 running, 2 returned), cb_reg (add_callback returned true),
+   cb_deq (dequeued by request_stop's loop), cb_running (thread inside execute()). *)
+
+(* Every stop_callback runs at most once ... *)
+Theorem C14_callback_at_most_once : forall P sched w0 progs srcs, ids_faithful P -> good_init w0 ->
+  forall k, cb_runs (cb (fst (st_run P sched w0 progs srcs)) k) <= 1.
+Proof. exact callback_at_most_once. Qed.
+Print Assumptions C14_callback_at_most_once.
+
+(* ... and exactly once if stop is ever requested: as soon as a request_stop has returned true
+   (no need to wait for the other threads), every callback whose constructor has returned was
+   invoked exactly once, except a callback that was deregistered while still queued, or one that
+   add_callback refused because the state was not stop_possible *)
+Theorem C14_callback_exactly_once : forall P sched w0 progs srcs, ids_faithful P -> good_init w0 ->
+  let g := fst (st_run P sched w0 progs srcs) in
+  count_req_true (log g) = 1 ->
+  forall k, cb_ctor (cb g k) = 2 ->
+    cb_runs (cb g k) = 1 \/
+    (cb_reg (cb g k) = true /\ cb_deq (cb g k) = false /\ 1 <= cb_dtor (cb g k)) \/
+    (cb_reg (cb g k) = false /\ cb_runs (cb g k) = 0).
+Proof. exact callback_exactly_once. Qed.
+Print Assumptions C14_callback_exactly_once.
+
+(* the same once every thread has finished: registered and not deregistered before being
+   dequeued => exactly one invocation *)
+Theorem C14_callback_exactly_once_done : forall P sched w0 progs srcs, ids_faithful P -> good_init w0 ->
+  let c := st_run P sched w0 progs srcs in
+  (forall t, thread_done (snd c t) = true) -> count_req_true (log (fst c)) = 1 ->
+  forall k, cb_ctor (cb (fst c) k) = 2 -> cb_reg (cb (fst c) k) = true ->
+    (cb_dtor (cb (fst c) k) = 0 \/ cb_deq (cb (fst c) k) = true) -> cb_runs (cb (fst c) k) = 1.
+Proof. exact callback_exactly_once_done. Qed.
+Print Assumptions C14_callback_exactly_once_done.
+
+(* ... and never after its destructor has returned: the monitor flag that the model raises when
+   execute() is entered with cb_dtor = 2 stays clear in every execution *)
+Theorem C14_no_callback_after_dtor : forall P sched w0 progs srcs, ids_faithful P -> good_init w0 ->
+  bad_run_after_dtor (fst (st_run P sched w0 progs srcs)) = false.
+Proof. exact no_callback_after_dtor. Qed.
+Print Assumptions C14_no_callback_after_dtor.
+
+(* the same without the flag: after the destructor of k returned, k is not queued and no thread
+   is at a point from which it would still invoke k *)
+Theorem C14_no_pending_invocation_after_dtor : forall P sched w0 progs srcs,
+  ids_faithful P -> good_init w0 ->
+  let c := st_run P sched w0 progs srcs in
+  forall k, cb_dtor (cb (fst c) k) = 2 ->
+    ~ In k (cbs (fst c)) /\
+    forall t, pc (snd c t) <> QUnlock k /\ pc (snd c t) <> QBegin k /\ pc (snd c t) <> ABegin k.
+Proof. exact no_pending_invocation_after_dtor. Qed.
+Print Assumptions C14_no_pending_invocation_after_dtor.
+
+(* the destructor waits for a callback running on another thread: the monitor flag raised when
+   remove_callback returns while another thread is inside execute() stays clear *)
+Theorem C14_dtor_waits_for_other_thread : forall P sched w0 progs srcs, ids_faithful P -> good_init w0 ->
+  bad_dtor_during_run (fst (st_run P sched w0 progs srcs)) = false.
+Proof. exact dtor_waits_for_other_thread. Qed.
+Print Assumptions C14_dtor_waits_for_other_thread.
+
+(* ... but not for one running on its own: a thread at the last step of remove_callback(k) sees k
+   not executing or executing on itself; a thread in the waiting loop never waits for a callback
+   executing on itself; the code's identity test says "same thread" exactly for the signalling thread *)
+Theorem C14_dtor_waits_other_not_self : forall P sched w0 progs srcs, ids_faithful P -> good_init w0 ->
+  let c := st_run P sched w0 progs srcs in
+  forall t k,
+    (pc (snd c t) = RRelease k ->
+       cb_running (cb (fst c) k) = None \/ cb_running (cb (fst c) k) = Some t) /\
+    (pc (snd c t) = RWait k -> cb_running (cb (fst c) k) <> Some t) /\
+    (same_thread P (fst c) t = true <-> winner (fst c) = Some t).
+Proof. exact dtor_waits_other_not_self. Qed.
+Print Assumptions C14_dtor_waits_other_not_self.
+
+(* non-vacuity: plain OS threads (the lock-step harness's identities) are faithful; thread 0
+   registers callback 0 and destroys it while thread 1 is inside the callback: after [s1] thread 0
+   sits in the waiting loop with the callback running on thread 1, after [s1 ++ s2] everything
+   has finished, the callback ran once and the destructor returned *)
+Example C14_callbacks_example :
+  let P := {| cb_body := fun _ => [OpTokCopy]; pika_id := fun _ => None; os_id := fun t => t |} in
+  let progs := fun t => match t with 0%nat => [OpAdd 0; OpRem 0] | 1%nat => [OpReq] | _ => [] end in
+  let srcs := fun t => match t with 1%nat => 1%nat | _ => 0%nat end in
+  let w0 := (3 + source_ref_increment)%N in
+  let s1 := map (fun t => (t, false)) [0;0;0;0;0; 1;1;1;1;1; 0;0;0;0;0;0]%nat in
+  let s2 := map (fun t => (t, false)) [1;1;1;1;1;1; 0;0]%nat in
+  let c1 := st_run P s1 w0 progs srcs in
+  let c2 := st_run P (s1 ++ s2) w0 progs srcs in
+  ids_faithful P /\ good_init w0 /\
+  pc (snd c1 0%nat) = RWait 0 /\ cb_running (cb (fst c1) 0%nat) = Some 1%nat /\
+  cb_dtor (cb (fst c1) 0%nat) = 1%nat /\
+  count_req_true (log (fst c2)) = 1%nat /\ cb_runs (cb (fst c2) 0%nat) = 1%nat /\
+  cb_dtor (cb (fst c2) 0%nat) = 2%nat /\ cb_deq (cb (fst c2) 0%nat) = true /\
+  thread_done (snd c2 0%nat) = true /\ thread_done (snd c2 1%nat) = true /\
+  bad_run_after_dtor (fst c2) = false /\ bad_dtor_during_run (fst c2) = false.
+Proof.
+  Transparent W. split; [|vm_compute; repeat split; reflexivity].
+  intros t1 t2. cbn. tauto.
+Qed.
+
+(* the hypothesis ids_faithful is needed: if two threads carry the same pika id (which the runtime
+   never does for live threads) the same schedule lets the destructor return during the callback *)
+Example C14_ids_faithful_needed :
+  let P := {| cb_body := fun _ => [OpTokCopy]; pika_id := fun _ => Some 7%nat; os_id := fun t => t |} in
+  let progs := fun t => match t with 0%nat => [OpAdd 0; OpRem 0] | 1%nat => [OpReq] | _ => [] end in
+  let srcs := fun t => match t with 1%nat => 1%nat | _ => 0%nat end in
+  let w0 := (3 + source_ref_increment)%N in
+  let s := map (fun t => (t, false)) [0;0;0;0;0; 1;1;1;1;1; 0;0;0;0;0;0]%nat in
+  ~ ids_faithful P /\ bad_dtor_during_run (fst (st_run P s w0 progs srcs)) = true.
+Proof.
+  split; [|vm_compute; reflexivity].
+  intros H. specialize (H 0%nat 1%nat). cbn in H. discriminate (H eq_refl).
+Qed.
 
 (* ------------------------------------------------------------------------------------------
    Part 2: handle histories (stop_source / stop_token construct, copy, move, copy-assign,
